@@ -62,6 +62,13 @@ claimed.update({
    technique="explicit-state BFS over construction histories x formats; exhaustive short serialization histories vs fresh-process references",
    design="5/C07"),
 })
+claimed.update({
+ "C04": dict(
+   text="Exhaustive schema-fault enumeration on the real reader: every single fault (13-entry menu: null, wrong type x3, empty, container of null, absent, duplicated, 10^4-char string, 10^4-element array, nesting 10^4 and 10^6) at every JSON path of a representative SPDX 2.3 and CycloneDX 1.5 document through detection, ParseStream and all 7 explicit formats; every pair of faults at distinct non-nested paths (quick: 4 structural fault kinds, thorough: all 8 light kinds); every token string of <=4 (thorough 5) tokens over a 19-token alphabet; oracle document xor error, no panic, no exit, no hang (oversized inputs in a child process with an address-space limit and an absolute deadline), plus an output-size growth probe that exposes exponential work without exhausting memory.",
+   note="Trusted: the fault menu and base documents (hand-written to contain every member the unserializers read). Complexity is probed, not measured. Two known findings (licence-expression doubling).",
+   technique="exhaustive single/double JSON schema-fault enumeration and bounded token-string enumeration under recover/watchdog",
+   design="5/C04"),
+})
 pending = {}
 all_ids = ["C%02d" % i for i in range(1, 21)]
 checks = []
